@@ -93,6 +93,11 @@ func (e *EndpointExporter) exportChildStmts(returnStatusMap map[int]spec.Respons
 
 func (e *EndpointExporter) populateEndpoint(path string, endpoint *proto.Endpoint, paths map[string]spec.PathItem,
 ) error {
+	// Only REST endpoints ("METHOD /path") have a Swagger operation; simple
+	// endpoints and events of the application are not part of the document.
+	if len(strings.Split(path, " ")) < 2 {
+		return nil
+	}
 	// extract the endpoint info and populate spec.PathItem
 	var pathItem spec.PathItem
 	var pathExists bool
